@@ -47,7 +47,15 @@ type Case struct {
 	Cancelled bool   `json:"cancelled"`
 	Dialect   string `json:"dialect"` // returning | lastinsertid
 	SkipTx    bool   `json:"skip_default_transaction"`
-	Readable  string `json:"readable,omitempty"`
+	// handle-derivation history (Derive == "" : none). The handle the operation
+	// is started from ("parent" or "child", Use) is bound to the caller's
+	// context; the other handle of the pair to another one (unless the
+	// derivation shares the parent's context: Begin, Debug, Session{}).
+	Derive         string `json:"derive,omitempty"`
+	Use            string `json:"use,omitempty"`
+	OtherFirst     bool   `json:"other_handle_used_first,omitempty"`
+	OtherCancelled bool   `json:"other_context_cancelled,omitempty"`
+	Readable       string `json:"readable,omitempty"`
 }
 
 func (c Case) String() string {
@@ -55,7 +63,76 @@ func (c Case) String() string {
 	if c.Cancelled {
 		ctx = "cancelled ctx"
 	}
-	return fmt.Sprintf("%s | handle=%s wrap=%s PrepareStmt=%s %s dialect=%s skipDefaultTx=%v", c.Op, c.Handle, c.Wrap, c.Prepare, ctx, c.Dialect, c.SkipTx)
+	s := fmt.Sprintf("%s | handle=%s wrap=%s PrepareStmt=%s %s dialect=%s skipDefaultTx=%v", c.Op, c.Handle, c.Wrap, c.Prepare, ctx, c.Dialect, c.SkipTx)
+	if c.Derive != "" {
+		s += fmt.Sprintf(" | history: parent; child := parent.%s; operation on the %s (other handle used first=%v, other context cancelled=%v)", c.Derive, c.Use, c.OtherFirst, c.OtherCancelled)
+	}
+	return s
+}
+
+// derivation kinds: how a child handle is derived from a context-bound parent.
+// own = the child gets its own context; otherwise it shares the parent's.
+type deriveKind struct {
+	name string
+	own  bool
+	tx   bool
+}
+
+var deriveKinds = []deriveKind{
+	{"Session{NewDB,Context}", true, false},
+	{"Session{Context}", true, false},
+	{"WithContext", true, false},
+	{"Session{PrepareStmt,Context}", true, false},
+	{"Session{NewDB,Context,SkipHooks}", true, false},
+	{"Session{NewDB,Context};parent.WithContext(third)", true, false},
+	{"WithContext.Begin", true, true},
+	{"Begin", false, true},
+	{"Debug", false, false},
+	{"Session{}", false, false},
+}
+
+func kindOf(name string) deriveKind {
+	for _, k := range deriveKinds {
+		if k.name == name {
+			return k
+		}
+	}
+	panic("unknown derivation " + name)
+}
+
+func derive(parent *gorm.DB, kind string, ctx context.Context) *gorm.DB {
+	switch kind {
+	case "Session{NewDB,Context}":
+		return parent.Session(&gorm.Session{NewDB: true, Context: ctx})
+	case "Session{Context}":
+		return parent.Session(&gorm.Session{Context: ctx})
+	case "WithContext":
+		return parent.WithContext(ctx)
+	case "Session{PrepareStmt,Context}":
+		return parent.Session(&gorm.Session{PrepareStmt: true, Context: ctx})
+	case "Session{NewDB,Context,SkipHooks}":
+		return parent.Session(&gorm.Session{NewDB: true, Context: ctx, SkipHooks: true})
+	case "Session{NewDB,Context};parent.WithContext(third)":
+		child := parent.Session(&gorm.Session{NewDB: true, Context: ctx})
+		parent.WithContext(context.WithValue(context.Background(), ctxKey{}, "third"))
+		parent.Session(&gorm.Session{NewDB: true, Context: context.WithValue(context.Background(), ctxKey{}, "third")})
+		return child
+	case "WithContext.Begin":
+		return parent.WithContext(ctx).Begin()
+	case "Begin":
+		return parent.Begin()
+	case "Debug":
+		return parent.Debug()
+	case "Session{}":
+		return parent.Session(&gorm.Session{})
+	}
+	panic("unknown derivation " + kind)
+}
+
+// touch uses a handle for a small read.
+func touch(db *gorm.DB) {
+	var c opcat.Company
+	db.First(&c, 1)
 }
 
 var handlesQuick = []string{"WithContext", "Session{Context}"}
@@ -147,7 +224,8 @@ func executeRaw(c Case) *result {
 
 	// [from,to) is the range of driver events issued on behalf of the handle
 	// bound to ctx; events outside belong to the surrounding transaction that
-	// was started from another handle.
+	// was started from another handle, or to the other handle of a derivation
+	// history.
 	from, to := 0, -1
 	outerWant := "" // marker expected outside the range ("" = not checked)
 	env.Rec.Reset()
@@ -157,6 +235,76 @@ func executeRaw(c Case) *result {
 				r.panicMsg = fmt.Sprint(p)
 			}
 		}()
+		if c.Derive != "" {
+			k := kindOf(c.Derive)
+			otherCtx := context.WithValue(context.Background(), ctxKey{}, outerMark)
+			if c.OtherCancelled {
+				var cancel context.CancelFunc
+				otherCtx, cancel = context.WithCancel(otherCtx)
+				cancel()
+			}
+			outerWant = outerMark
+			if !k.own {
+				outerWant = callerMark
+			}
+			finish := func(child *gorm.DB, err error) {
+				if !k.tx || child.Error != nil {
+					return
+				}
+				if err != nil {
+					child.Rollback()
+				} else {
+					child.Commit()
+				}
+			}
+			var used *gorm.DB
+			var after func()
+			if c.Use == "parent" {
+				parent := bind(base, c.Handle, ctx)
+				child := derive(parent, c.Derive, otherCtx)
+				if c.OtherFirst && child.Error == nil {
+					touch(child)
+				}
+				finish(child, nil)
+				used = parent
+			} else {
+				pctx := otherCtx
+				if !k.own {
+					pctx = ctx
+				}
+				parent := bind(base, c.Handle, pctx)
+				if c.OtherFirst {
+					touch(parent)
+				}
+				// the child's own BEGIN (if any) is issued on behalf of the child
+				from = env.Rec.Len()
+				child := derive(parent, c.Derive, ctx)
+				if child.Error != nil {
+					// Begin refused (cancelled context): a caller stops here
+					r.err = child.Error
+					to = env.Rec.Len()
+					return
+				}
+				used = child
+				after = func() { finish(child, r.err) }
+			}
+			if c.Use == "parent" {
+				from = env.Rec.Len()
+			}
+			switch c.Wrap {
+			case "direct":
+				r.err = op.Run(used)
+			case "tx-depth1":
+				r.err = used.Transaction(func(tx *gorm.DB) error { return op.Run(tx) })
+			default:
+				panic("wrapper " + c.Wrap + " is not combined with derivation histories")
+			}
+			to = env.Rec.Len()
+			if after != nil {
+				after()
+			}
+			return
+		}
 		switch c.Wrap {
 		case "direct":
 			r.err = op.Run(bind(base, c.Handle, ctx))
@@ -219,7 +367,9 @@ func executeRaw(c Case) *result {
 	evs := env.Rec.Events()
 	if to < 0 {
 		to = len(evs)
-		if c.Wrap == "bind-inside-tx" || c.Wrap == "rebind-inside-tx" {
+		if c.Derive != "" {
+			// panicked before the operation ended: judge what was recorded
+		} else if c.Wrap == "bind-inside-tx" || c.Wrap == "rebind-inside-tx" {
 			// the block never ran (or panicked): nothing belongs to the bound handle
 			if from == 0 {
 				to = 0
@@ -281,6 +431,9 @@ func tags(c Case) []string {
 	if c.Cancelled {
 		t = append(t, "cancelled")
 	}
+	if c.Derive != "" {
+		t = append(t, "derive:"+c.Derive, "use:"+c.Use)
+	}
 	return t
 }
 
@@ -336,6 +489,7 @@ type stats struct {
 	events, begins, prepares, stmtCalls                int64
 	multi, opErrors, panics, cancelledWithoutErr       int64
 	liveWithInternalSession, insideTx, cancelledBlocks int64
+	histories, parentAfterChild, liveBesideCancelled   int64
 }
 
 func main() {
@@ -393,6 +547,54 @@ func main() {
 		}
 	}
 
+	// handle-derivation histories
+	histOps := map[string]bool{}
+	for _, n := range []string{"create-full-graph", "batches-3x2-graph", "save-absent-key-with-company", "updates-model-with-associations",
+		"delete-select-pets", "first", "count", "rows-scanrows", "exec", "first-or-create-missing", "preload-nested",
+		"joins-preload-through-join", "find-in-batches", "assoc-append-m2m", "assoc-replace-has-many", "assoc-count-m2m"} {
+		if _, ok := opcat.ByName(n); !ok {
+			run.HarnessError("history subset names an unknown operation %s", n)
+		}
+		histOps[n] = true
+	}
+	histHandles := []string{"WithContext"}
+	if thorough {
+		histHandles = []string{"WithContext", "Session{Context}"}
+	}
+	nHist := 0
+	histOpCount := len(histOps)
+	if thorough {
+		histOpCount = len(ops)
+	}
+	for _, op := range ops {
+		if only != "" && op.Name != only {
+			continue
+		}
+		if !thorough && !histOps[op.Name] {
+			continue
+		}
+		for _, hd := range histHandles {
+			for _, k := range deriveKinds {
+				for _, use := range []string{"parent", "child"} {
+					for _, first := range []bool{false, true} {
+						for _, w := range []string{"direct", "tx-depth1"} {
+							for _, p := range prepares {
+								for _, cv := range [][2]bool{{false, false}, {true, false}, {false, true}} {
+									if cv[1] && !k.own {
+										continue // one shared context: there is no other one to cancel
+									}
+									cases = append(cases, Case{Op: op.Name, Handle: hd, Wrap: w, Prepare: p, Cancelled: cv[0], Dialect: "returning",
+										Derive: k.name, Use: use, OtherFirst: first, OtherCancelled: cv[1]})
+									nHist++
+								}
+							}
+						}
+					}
+				}
+			}
+		}
+	}
+
 	deadline := time.Now().Add(80 * time.Second)
 	if thorough {
 		deadline = time.Now().Add(9 * time.Minute)
@@ -422,6 +624,15 @@ func main() {
 				c := cases[n]
 				r := execute(c)
 				atomic.AddInt64(&st.cases, 1)
+				if c.Derive != "" {
+					atomic.AddInt64(&st.histories, 1)
+					if !c.Cancelled && c.Use == "parent" && r.statements > 0 {
+						atomic.AddInt64(&st.parentAfterChild, 1)
+					}
+					if !c.Cancelled && c.OtherCancelled && r.statements > 0 {
+						atomic.AddInt64(&st.liveBesideCancelled, 1)
+					}
+				}
 				atomic.AddInt64(&st.events, int64(r.statements+r.begins))
 				atomic.AddInt64(&st.begins, int64(r.begins))
 				atomic.AddInt64(&st.prepares, int64(r.prepares))
@@ -486,6 +697,9 @@ func main() {
 		if st.begins < 500 || st.prepares < 500 || st.stmtCalls < 500 {
 			run.HarnessError("vacuous: begins=%d prepares=%d prepared-statement calls=%d checked", st.begins, st.prepares, st.stmtCalls)
 		}
+		if st.parentAfterChild < 500 || st.liveBesideCancelled < 300 {
+			run.HarnessError("vacuous: handle-derivation histories: %d live operations on a parent after deriving a child, %d live operations beside a cancelled sibling context", st.parentAfterChild, st.liveBesideCancelled)
+		}
 		if opsSeen.Len() != len(ops) && atomic.LoadInt32(&capped) == 0 {
 			run.HarnessError("only %d of %d operations ran", opsSeen.Len(), len(ops))
 		}
@@ -498,10 +712,13 @@ func main() {
 	run.Finish(map[string]interface{}{
 		"evaluations":         st.cases,
 		"distinct_nontrivial": distinct.Len(),
-		"rule":                fmt.Sprintf("every operation of the catalogue (%d: %d writes, reads/preloads/joins/FindInBatches/raw, association mode) x handle binding %v x wrapper %v x PrepareStmt %v x {live, already cancelled} context x dialector %v x SkipDefaultTransaction %v, each executed on a fresh database; every begin/prepare/exec/query/stmt_exec/stmt_query event of the recording driver is checked for the caller's marker value; non-trivial = distinct live-context cases in which the driver saw >= 2 statements on behalf of the operation (nested statements issued through internal sessions)", len(ops), len(opcat.Writes()), handles, wraps, prepares, dialects, skips),
+		"rule":                fmt.Sprintf("every operation of the catalogue (%d: %d writes, reads/preloads/joins/FindInBatches/raw, association mode) x handle binding %v x wrapper %v x PrepareStmt %v x {live, already cancelled} context x dialector %v x SkipDefaultTransaction %v, plus handle-derivation histories (parent bound to one context; child := parent.<%d derivation kinds: Session{NewDB,Context}, Session{Context}, WithContext, Session{PrepareStmt,Context}, …, Begin, Debug>, bound to another context unless the kind shares it; optionally the other handle used first; the operation started from the parent or from the child; either context already cancelled) for %d operations x wrappers direct/tx-depth1, each executed on a fresh database; every begin/prepare/exec/query/stmt_exec/stmt_query event of the recording driver is checked for the caller's marker value; non-trivial = distinct live-context cases in which the driver saw >= 2 statements on behalf of the operation (nested statements issued through internal sessions)", len(ops), len(opcat.Writes()), handles, wraps, prepares, dialects, skips, len(deriveKinds), histOpCount),
 		"samples":             samples.List(),
 		"exhaustive":          atomic.LoadInt32(&capped) == 0,
 		"operations":          len(ops),
+		"derivation_history_cases":                        st.histories,
+		"live_operations_on_parent_after_deriving_child":  st.parentAfterChild,
+		"live_operations_beside_cancelled_other_context":  st.liveBesideCancelled,
 		"live_cases":          st.live,
 		"cancelled_cases":     st.cancelled,
 		"driver_calls_checked":                  st.events,
